@@ -488,6 +488,11 @@ func (rt *Runtime) helperData() map[string]interface{} {
 			return s, nil
 		},
 	}
+	if rt.Variant == 1 {
+		// this caller overrides two default helpers: its values win in this context and all its descendants
+		d["upcase"] = func(s string) string { return "UP(" + s + ")" }
+		d["len"] = func(v interface{}) int { return 4242 }
+	}
 	return d
 }
 
